@@ -139,7 +139,7 @@ def edit_feature(prev, cur):
 
 
 def _fn(kind, refs, **kw):
-    d = dict(kind=kind, where="mod", const=1, setc=None, tup=None, dflt=None, kwd=None, lam=None, nest=None, refs=refs)
+    d = dict(kind=kind, where="mod", const=1, setc=None, tup=None, dflt=None, kwd=None, lam=None, nest=None, gx=None, dcall=None, refs=refs)
     if kind == "memento":
         d["explicit"] = None
     else:
@@ -187,6 +187,17 @@ def corpus():
                     "m1": _fn("memento", [["h1", "bare"], ["h1", "alias"], ["h2", "bare"]])}, order=["h1", "h2", "m1"])
     b1 = json.loads(json.dumps(b0)); b1["alias_map"] = {"h1": "h2"}
     out.append([b0, b1])
+    # constants of nested code objects: the string constant of a generator expression, of a helper and of a memento function
+    g0 = dict(defs={"h1": _fn("plain", [], gx="x"), "m1": _fn("memento", [["h1", "bare"]], gx="x"), "m2": _fn("memento", [["m1", "bare"]])},
+              order=["h1", "m1", "m2"])
+    g1 = json.loads(json.dumps(g0)); g1["defs"]["m1"]["gx"] = "y"
+    g2 = json.loads(json.dumps(g1)); g2["defs"]["h1"]["gx"] = "z"
+    out.append([g0, g1, g2])
+    # a callable default value replaced by another callable
+    d0 = dict(defs={"h1": _fn("plain", [], dcall=0), "m1": _fn("memento", [["h1", "bare"]], dcall=0)}, order=["h1", "m1"])
+    d1 = json.loads(json.dumps(d0)); d1["defs"]["h1"]["dcall"] = 1
+    d2 = json.loads(json.dumps(d1)); d2["defs"]["m1"]["dcall"] = 1
+    out.append([d0, d1, d2])
     return out
 
 
